@@ -206,10 +206,6 @@ func (p *proc) output() []byte {
 // or into the pipe that is its standard input.
 func (p *proc) send(b []byte) error {
 	if p.stdinW != nil {
-		// the keys go where the program may read them: into the pipe that is its
-		// standard input, and onto the terminal as well (a program that reads
-		// its keys from /dev/tty is as good as one that reads standard input)
-		_, _ = p.master.Write(b)
 		_, err := p.stdinW.Write(b)
 		if errors.Is(err, syscall.EPIPE) {
 			// nobody reads any more (the child is gone or has closed it):
